@@ -219,4 +219,20 @@ theorem iterFor_stateless (o : ForState → Item → String) (sig : ForState →
       rw [ih]
       simp [String.append_assoc]
 
+/-- the HTML one cell contributes: the cell, and the row separator when the column is the last of
+its row and the item is not the last of the loop -/
+def cellHtml (o : RowState → Item → String) (r : Item × RowState) : String :=
+  "<td class=\"col" ++ toString r.2.col ++ "\">" ++ o r.2 r.1 ++ "</td>" ++
+    (if r.2.colLast && !r.2.last then "</tr>\n<tr class=\"row" ++ toString (r.2.row + 1) ++ "\">" else "")
+
+theorem iterRow_cons_normal (body : StopIndex → RowState → Item → Res) (m m' : StopIndex) (s : RowState)
+    (x : Item) (xs : List Item) (out o : String) (sig : Signal) (hs : sig ≠ .break_)
+    (h : body m s.step x = .ok (m', o, sig)) :
+    iterRow body m s (x :: xs) out = iterRow body m' s.step xs
+      (if s.step.colLast && !s.step.last
+       then out ++ "<td class=\"col" ++ toString s.step.col ++ "\">" ++ o ++ "</td>" ++ "</tr>\n<tr class=\"row" ++ toString (s.step.row + 1) ++ "\">"
+       else out ++ "<td class=\"col" ++ toString s.step.col ++ "\">" ++ o ++ "</td>") := by
+  rw [iterRow]
+  simp only [h, hs, if_false]
+
 end LiquidVerif.Loop
